@@ -1,6 +1,7 @@
 package wire
 
 import (
+	"bytes"
 	"fmt"
 	"io"
 	"sort"
@@ -11,6 +12,7 @@ import (
 	"github.com/bluenviron/gomavlib/v3/pkg/dialect"
 	"github.com/bluenviron/gomavlib/v3/pkg/dialects/common"
 	"github.com/bluenviron/gomavlib/v3/pkg/frame"
+	"github.com/bluenviron/gomavlib/v3/pkg/streamwriter"
 
 	"verifharness/evid"
 	"verifharness/ref"
@@ -51,8 +53,19 @@ var sharedKeyForHistories *frame.V2Key
 // reader (the link), not to the link id a frame claims, so histories mix link ids.
 func linkOf(seq byte) byte { return []byte{3, 3, 0, 255, 7, 3, 200, 1}[int(seq)%8] }
 
+// historyRawID[i], when set, is the message id of the i-th frame of a history read without a dialect: the window is the
+// link's, whatever message a frame carries (radio status reports, heartbeats, time synchronisation, ... included).
+var historyRawID = map[int]uint32{}
+
 func signedAt(ts uint64, seq byte) []byte {
-	f := ref.Frame{V2: true, Incompat: 1, Seq: seq, Sys: 9, Comp: 8, ID: 70001, Payload: []byte{seq, 1}, Checksum: 0x1234, LinkID: linkOf(seq), Timestamp: ts}
+	if id, ok := historyRawID[int(seq)]; ok {
+		return signedAtID(ts, seq, id)
+	}
+	return signedAtID(ts, seq, 70001)
+}
+
+func signedAtID(ts uint64, seq byte, id uint32) []byte {
+	f := ref.Frame{V2: true, Incompat: 1, Seq: seq, Sys: 9, Comp: 8, ID: id, Payload: []byte{seq, 1}, Checksum: 0x1234, LinkID: linkOf(seq), Timestamp: ts}
 	f.Sig = f.SignatureFor(c07Key)
 	return f.Bytes()
 }
@@ -115,6 +128,9 @@ func runHistoryDialect(hist []uint64, di *dialectInfo, known []bool) (string, er
 	refusedForChecksum := map[int]bool{}
 	for i, ts := range hist {
 		b := signedAt(ts, byte(i)) // link id depends on the position
+		if di != nil {
+			b = signedAtID(ts, byte(i), 70001) // a message the dialect does not contain
+		}
 		if di != nil && known[i] {
 			b = signedKnownAt(di, ts, byte(i))
 			switch historyFrameKinds[i] {
@@ -283,6 +299,19 @@ func TestC07WindowRandom(t *testing.T) {
 		sawDup, sawStaleRun := false, false
 		verbatimDup = map[int]bool{}
 		transportGap = map[int]bool{}
+		// the messages the frames carry: one id of the common dialect (or any other id) per case, carried by about
+		// half of the frames, the rest carry an id no dialect has
+		historyRawID = map[int]uint32{}
+		defer func() { historyRawID = map[int]uint32{} }()
+		caseID := common.ids[rapid.IntRange(0, len(common.ids)-1).Draw(t, "message_id_of_the_case")]
+		if rapid.IntRange(0, 9).Draw(t, "any_id") == 0 {
+			caseID = uint32(rapid.IntRange(0, 1<<24-1).Draw(t, "message_id_any"))
+		}
+		for i := 0; i < n; i++ {
+			if rapid.Bool().Draw(t, "carries_the_case_id") {
+				historyRawID[i] = caseID
+			}
+		}
 		staleRun := 0
 		var staleNext uint64
 		for i := 0; i < n; i++ {
@@ -499,8 +528,9 @@ func TestC07WindowRandom(t *testing.T) {
 
 // TestC07WriterTimestamps: outgoing signed frames carry 10us ticks since 2015-01-01 UTC, never decreasing on a link.
 func TestC07WriterTimestamps(t *testing.T) {
-	rec := evid.New(t, "C07", "sequences of keyed writes on streamwriter.Writer and frame.Writer: each timestamp lies in the wall-clock bracket of its call in 10us ticks since 2015-01-01 UTC and never decreases along the link; distinct by (writer kind, sequence length, first timestamp)")
+	rec := evid.New(t, "C07", "sequences of keyed writes on streamwriter.Writer and frame.Writer (stand-alone, or the writing half of a frame.ReadWriter whose reading half accepts, between the writes, correctly signed frames of a peer whose clock is 1 s .. 1 year ahead or at the largest 48-bit value): each timestamp lies in the wall-clock bracket of its call in 10us ticks since 2015-01-01 UTC and never decreases along the link; distinct by (writer kind, sequence length, first timestamp)")
 	common, _ := dialects(t)
+	rec.Require("writer-of-a-link-that-accepted-frames-stamped-ahead-of-the-local-clock")
 	evid.Check(t, rec, evid.N(600, 4000), func(t *rapid.T) {
 		readBufSize = 512
 		useStream := rapid.Bool().Draw(t, "streamwriter")
@@ -509,9 +539,50 @@ func TestC07WriterTimestamps(t *testing.T) {
 		if err != nil {
 			t.Fatalf("BROKEN: %v", err)
 		}
+		// one case in three: the writer is the writing half of a link (frame.ReadWriter with both keys) whose reading
+		// half accepts, between the writes, correctly signed frames of a peer whose clock is ahead of (or behind) the
+		// local one; what goes out is stamped with the local time of the write all the same
+		var link *frame.ReadWriter
+		inbox := &bytes.Buffer{}
+		onLink := rapid.IntRange(0, 2).Draw(t, "writer_of_a_link") == 0
+		var peerAhead uint64
+		acceptedAhead := false
+		if onLink {
+			link = &frame.ReadWriter{ByteReadWriter: struct {
+				io.Reader
+				io.Writer
+			}{inbox, w}, DialectRW: common.rw, InKey: keyOf(&c07Key),
+				OutVersion: frame.V2, OutSystemID: 1, OutSignatureLinkID: 5, OutKey: keyOf(&c07Key)}
+			if err := link.Initialize(); err != nil {
+				t.Fatalf("BROKEN: %v", err)
+			}
+			write = link.WriteMessage
+			if useStream {
+				sw := &streamwriter.Writer{FrameWriter: link.Writer, Version: streamwriter.V2, SystemID: 1, SignatureLinkID: 5, Key: keyOf(&c07Key)}
+				if err := sw.Initialize(); err != nil {
+					t.Fatalf("BROKEN: %v", err)
+				}
+				write = sw.Write
+			}
+			// 1 s, 1 min, 1 h, 1 year ahead, or the largest 48-bit value
+			peerAhead = rapid.SampledFrom([]uint64{100000, 6000000, 360000000, 3153600000000, 0}).Draw(t, "peer_clock_ahead_by")
+		}
 		n := rapid.OneOf(rapid.IntRange(2, 60), rapid.IntRange(260, 700)).Draw(t, "n")
 		var prev, first uint64
 		for i := 0; i < n; i++ {
+			if onLink && (i == 1 || rapid.IntRange(0, 3).Draw(t, "incoming_frame") == 0) {
+				its := since2015(timeNow()) + peerAhead
+				if peerAhead == 0 {
+					its = 1<<48 - 1
+				}
+				if rapid.IntRange(0, 5).Draw(t, "peer_behind") == 0 && i != 1 {
+					its = since2015(timeNow()) - 300
+				}
+				inbox.Write(signedKnownAt(common, its, byte(i)))
+				if fr, rerr := link.Read(); rerr == nil && fr != nil && its > since2015(timeNow()) {
+					acceptedAhead = true
+				}
+			}
 			before := since2015(timeNow())
 			if err := write(heartbeatValue(common)); err != nil {
 				t.Fatalf("write: %v", err)
@@ -522,7 +593,9 @@ func TestC07WriterTimestamps(t *testing.T) {
 				t.Fatalf("emitted bytes do not parse: %v", perr)
 			}
 			if p.Timestamp < before || p.Timestamp > after+1 {
-				t.Fatalf("timestamp %d outside [%d,%d] (10us ticks since 2015-01-01 UTC)", p.Timestamp, before, after)
+				msg := fmt.Sprintf("write %d (streamwriter=%v, writing half of a frame.ReadWriter=%v, the reading half accepted frames stamped ahead of the local clock=%v): timestamp %d outside [%d,%d] (10us ticks since 2015-01-01 UTC at the time of the write)", i, useStream, onLink, acceptedAhead, p.Timestamp, before, after)
+				evid.ReplayNote("C07", "TestC07WriterTimestamps", msg)
+				t.Fatalf("%s", msg)
 			}
 			if p.Timestamp < prev {
 				t.Fatalf("timestamp decreased on the link: %d after %d (write %d)", p.Timestamp, prev, i)
@@ -532,7 +605,11 @@ func TestC07WriterTimestamps(t *testing.T) {
 			}
 			prev = p.Timestamp
 		}
-		rec.Case(true, evid.HashS(fmt.Sprint(useStream, n, first)), "writer-sequence")
+		wcls := []string{"writer-sequence"}
+		if acceptedAhead {
+			wcls = append(wcls, "writer-of-a-link-that-accepted-frames-stamped-ahead-of-the-local-clock")
+		}
+		rec.Case(true, evid.HashS(fmt.Sprint(useStream, onLink, n, first)), wcls...)
 		if rec.WantSample("writer-sequence") {
 			rec.Sample("writer-sequence", map[string]interface{}{"streamwriter": useStream, "writes": n, "first_ts": first, "last_ts": prev})
 		}
